@@ -41,6 +41,8 @@ PICK = [
     ('C16', lambda r, d, c: r == 'C16.a' and ('bitmap' in d or 'bit position' in d or 'missing mask' in d or 'validity' in d or 'bitmap' in (c or '')), 'C17.f'),
     ('C03', lambda r, d, c: r in ('C03.b', 'C03.j'), 'C17.c'),
     ('C13', lambda r, d, c: r == 'C13.i', 'C17.f'),
+    ('C01', lambda r, d, c: r == 'C01.n', 'C17.e'),
+    ('C14', lambda r, d, c: r == 'C14.c' and 'measure kernel' in d, 'C17.f'),
     ('C13', lambda r, d, c: r == 'C13.b' and ('validity mask' in d or 'placeholder' in d or 'missing' in d), 'C17.f'),
 ]
 
